@@ -141,6 +141,10 @@ BAD_VALUE = {"nesting": ["--max-depth", "deep"], "srp": ["--max-methods", "many"
              "perf": ["--rule", "no-such-rule"], "pipeline": ["--min-continues", "2.5"]}
 
 
+ZERO_VALUE = {"nesting": ["--max-depth", "0"], "srp": ["--max-methods", "0"], "dry": ["--min-lines", "0"],
+              "pipeline": ["--min-continues", "0"]}
+
+
 def argv_for(cmd: str, fault: str, inp: str, fmt: str) -> tuple[list[str], str]:
     """(argv after the command name, cwd-relative project dir)."""
     tgt = {"zero": ["empty_dir"], "file": TRIGGER[cmd], "dir": ["."], "hostile": ["hostile"]}[inp]
@@ -149,6 +153,8 @@ def argv_for(cmd: str, fault: str, inp: str, fmt: str) -> tuple[list[str], str]:
         return pre + ["--no-such-option"] + tgt, "proj"
     if fault == "badOptionValue":
         return pre + BAD_VALUE[cmd] + tgt, "proj"
+    if fault == "zeroOptionValue":
+        return pre + ZERO_VALUE[cmd] + tgt, "proj"
     if fault == "badFormat":
         return ["--format", "xml"] + tgt, "proj"
     if fault == "missingPath":
@@ -273,7 +279,7 @@ def run(chk) -> None:
                        "text rendering is matched block-wise against the JSON violations in the documented "
                        "two-line shape (column omitted when 0)"]
     r = tlc.run("Run", "mc/Run.cfg", workers=1, timeout=300)
-    chk.add_tlc("Run exhaustive (13 faults x 4 inputs x 3 formats x verbose)", r)
+    chk.add_tlc("Run exhaustive (14 faults x 4 inputs x 3 formats x verbose)", r)
     if r.violation:
         raise MachineryError("Run.tla invariants violated:\n" + r.stdout[-1500:])
     cases = tlc.parse_cases(r.stdout)
@@ -285,7 +291,9 @@ def run(chk) -> None:
         for fault, inp in pairs:
             if fault == "badOptionValue" and cmd not in BAD_VALUE:
                 continue
-            if quick and fault not in ("none", "badOptionValue") and (hash((cmd, fault)) % 2) and cmd not in ("nesting", "dry"):
+            if fault == "zeroOptionValue" and cmd not in ZERO_VALUE:
+                continue
+            if quick and fault not in ("none", "badOptionValue", "zeroOptionValue") and (hash((cmd, fault)) % 2) and cmd not in ("nesting", "dry"):
                 continue
             jobs.append({"cmd": cmd, "fault": fault, "input": inp})
             # the same invocation with the global --verbose flag: for every error class (rotating over the commands in
